@@ -17,8 +17,12 @@
 (*   config  [goos, goarch, gover : sets of strings, sample : 0..D,          *)
 (*            progs : set of [name, versions : set of strings,               *)
 (*                            counters, stacks : set of [name, rate]]]       *)
-(*   file    [id, build, week, counts : set of [n : name, v : Nat]]          *)
-(*           an expired counter file (id only keeps equal files apart)       *)
+(*   file    [id, build, week, expired, counts : set of [n : name, v : Nat]]  *)
+(*           a counter file in local/ (id only keeps equal files apart);      *)
+(*           expired: its recorded end lies before the start of the run.      *)
+(*           Only expired files are folded into reports: a file that is still *)
+(*           active contributes to no sum and none of its names, values or   *)
+(*           metadata may appear in a request.                               *)
 (*   datum   [b : build, n : name, v : Nat]  one (build, name, value) triple *)
 EXTENDS Integers, Sequences, FiniteSets
 
@@ -102,7 +106,7 @@ NameListed(cfg, prog, n) == NameRates(cfg, prog, n) # {}
 NameApproved(cfg, prog, n, X) == \E r \in NameRates(cfg, prog, n) : X <= r   \* "rate not below X"
 
 (* ---- per-build sums and reports -------------------------------------------*)
-WeekFiles(files, w) == {f \in files : f.week = w}
+WeekFiles(files, w) == {f \in files : f.week = w /\ f.expired}
 RECURSIVE SumOver(_, _)
 SumOver(fs, n) == IF fs = {} THEN 0
                   ELSE LET f == CHOOSE f \in fs : TRUE
